@@ -111,6 +111,52 @@ OPEN = {
 for k, v in OPEN.items():
     CLAIMS[k]["note"] += v
 
+# Extension round (DESIGN.md "Extension round (2026-09-26)")
+ISA = (" VM side (extension round): the run loop is proved against the documented instruction set as a step relation checked at every back edge "
+       "(vm.Run#step[loop0:isa_*]): for each opcode class the instruction at the head of the iteration pops exactly its stack operands (src0 first), "
+       "applies the operator its opcode names to (src1, src0) resp. (tmp, src0), leaves the result on the stack resp. in the accumulator, moves exactly the source value "
+       "to the local / global / accumulator destination of MOV and INC, jumps exactly on the documented truth value and only on a boolean operand, and CALL builds the documented frame; "
+       "operand fetch is functional (fetch#ensures[operand]). The value operators themselves are uninterpreted here (proved under C11); EXIT is not in the relation.")
+CLAIMS["C01"]["text"] += ISA
+CLAIMS["C12"]["text"] += ISA
+CLAIMS["C11"]["text"] += (" Extension round: string indexing yields the byte at the position as a one-byte string for every byte value (defect D27, fixed 4a066f9, was hidden by a wrong string(byte) axiom of the engine); "
+                          "the VM applies the operator named by the opcode to (src1, src0) in this order and stores exactly its result (vm.Run#step[loop0:isa_binary, isa_binary_tmp, isa_unary, isa_unary_tmp, isa_inc], Run#atcall[index_operands]).")
+CLAIMS["C04"]["text"] += (" Extension round: slot allocation - Assign.STRewrite and For.STRewrite keep a function's scope dense and duplicate-free (an existing name keeps its slot, a new one takes the slot numbered by the scope's size, all other names keep theirs), "
+                          "Function.STRewrite hands its body such a scope when the parameter names are pairwise distinct; MOV/INC write exactly the addressed local slot or global (isa_mov, isa_inc); CALL builds the frame over the arguments and installs the callee's captured frame (isa_call).")
+CLAIMS["C04"]["note"] += (" Open listed findings (extension round): Function.STRewrite#atcall[body_scope_well_formed@...] - with a repeated parameter name the first new local shares the last parameter's slot (D29); "
+                          "Run#atcall[yielded_closure_detached@m.Push(tmp)] - a closure yielded to a generator's consumer keeps pointing into the generator context's recyclable stack (D28). "
+                          "The interface contract STRewriter.STRewrite (extends only the innermost scope, keeps slots and well-formedness) is trusted for the node types that only pass the table on.")
+CLAIMS["C18"]["text"] += " Extension round: the same slot-allocation clauses of STRewrite and the VM's MOV/CALL steps (isa_mov, isa_call) are tagged C18 (a variable's slot is its own; a write reaches exactly that slot)."
+CLAIMS["C18"]["note"] += " Open listed finding (extension round): Function.STRewrite#atcall[body_scope_well_formed@...] (D29, repeated parameter names)."
+CLAIMS["C02"]["text"] += " Extension round: loop variables are allocated like assigned locals (For.STRewrite: existing slot kept, otherwise next free slot, scope stays dense and duplicate-free)."
+CLAIMS["C02"]["note"] = CLAIMS["C02"]["note"].replace(" Design defect D8 (one temp register for all contexts) is not expressible in these contracts.", "") + (
+    " Open listed finding (extension round): Yield.byteCode#ensures[yield_value_survives_resumption] - the value of a yield is re-read from the accumulator after the consumer's loop body ran, and the accumulator is shared by all contexts (D8, reachable through a function whose last statement is a yield).")
+CLAIMS["C12"]["note"] += " Open listed finding (extension round): Yield.byteCode#ensures[yield_value_survives_resumption] (D8)."
+CLAIMS["C01"]["note"] += " Open listed finding (extension round): Yield.byteCode#ensures[yield_value_survives_resumption] (D8)."
+CLAIMS["C03"]["note"] += " Open listed finding (extension round): Run#atcall[yielded_closure_detached@m.Push(tmp)] (D28)."
+CLAIMS["C13"]["text"] += (" Extension round: result lists of Any and SeparatedBy - a completed iteration extends the list by exactly as many nodes as its parsers produced and keeps the earlier entries, "
+                          "the repetition ends only when the gate / separator or the element fails, and a failing round of SeparatedBy adds nothing (loop step / exit clauses).")
+CLAIMS["C13"]["note"] = CLAIMS["C13"]["note"].replace("and the content of result lists (only the input position and transaction discipline are specified)", "and which nodes the new entries of a result list are (lengths, kept prefixes and exit conditions are specified; element identity needs a non-aliasing assumption on the parsers' result slices)")
+CLAIMS["C07"]["text"] += (" Extension round: a repetition (Any) goes on for as long as gate and element succeed and returns what its iterations produced (lengths, kept prefix); a list with separators (SeparatedBy) likewise; "
+                          "a for header is accepted only with as many iterators as variables (parser.forLoop#atcall[header_pairs_up], mkFor#ensures[lists_kept]).")
+CLAIMS["C05"]["text"] += (" Extension round: the parser builds a For node only from a header whose variable and iterator lists have the same length (the compiler's panic for the other case is then unreachable from parsed text); "
+                          "a function literal's frame covers its parameters (Function.STRewrite#ensures[frame_covers_params]); every statement of a block is compiled, so a discarded statement's runtime error is not lost (Block.byteCode#ensures[every_statement_compiled]).")
+CLAIMS["C08"]["text"] += " Extension round: at every error exit of the run loop no global and no stack slot below the stack pointer differs from what it was when the failing instruction started (vm.Run#atcall[failed_instruction_stored_nothing]); every statement of a block is compiled."
+CLAIMS["C08"]["note"] = CLAIMS["C08"]["note"].replace(" processInput adding no code on parse errors is not under contract.", " That the code and data segments are never truncated after a failed run is not under contract (vm.Run's frame is `modifies *`).")
+CLAIMS["C16"]["text"] += " Extension round: (3) the script mode's and the REPL's compile entry points keep the code of the statement exactly and add at most a POP resp. a PUSH of its value (ByteCodeNoStck / ByteCode #ensures[statement_code_kept_plus_*])."
+CLAIMS["C16"]["text"] += " (4) the statement assembler Loop never drops a line it has read from a statement that is being assembled (Loop#step[loop0:every_line_joins_the_statement])."
+CLAIMS["C08"]["text"] += " processInput does not touch the code and data segments after the statement has run, whatever the outcome (processInput#step[loop0:segments_untouched_after_the_run])."
+CLAIMS["C08"]["note"] = CLAIMS["C08"]["note"].replace(" That the code and data segments are never truncated after a failed run is not under contract (vm.Run's frame is `modifies *`).", " That vm.Run itself leaves the code and data segments alone is not proved (its frame is `modifies *`); what processInput does after the run is.")
+CLAIMS["C17"]["text"] += " READ fails only when the reader returned no data: the last line of an input without final newline is returned (defect D30, fixed 9325ab9)."
+CLAIMS["C17"]["text"] += " Extension round: the WRITE step hands exactly its operand to fmt.Print, once (vm.Run#atcall[write_prints_the_value]), pushes Nil, and TOA pushes the string rendering of its operand (step[isa_pushes_one])."
+CLAIMS["C02"]["text"] += (" The coroutine instructions are in the VM's step relation (vm.Run#step[loop0:isa_yield, isa_scont, isa_ccont, isa_dcont_rcont]): YIELD leaves its operand in the accumulator, suspends the generator at the YIELD and resumes the parent after the instruction it was suspended at with the value on its stack; "
+                          "SCONT suspends the running context and resumes the child registered under the id after its suspension point; CCONT makes the forking context resume at ip+src0 and runs the new context on the instructions that follow; DCONT returns to the parent. 'Contexts form a tree' is an antecedent of these clauses.")
+CLAIMS["C03"]["text"] += " Extension round: YIELD always loads the accumulator with its operand (isa_yield), a function literal's frame covers its parameters (frame_covers_params)."
+CLAIMS["C11"]["text"] += " Eq#ensures[deep]: == on every operand pair, arrays included, is the documented element-wise relation and != its negation."
+CLAIMS["C12"]["text"] += " Extension round: no part of a statement is skipped - Block compiles every statement; UnOp, IndexAt, IndexFromTo, Return, Yield, the built-in nodes, If, IfElse and Function compile their operands, branches and body (ghost marking compiledG; BinOp and Assign are exempt because of their folding / same-operand / INC shortcuts); RET and the coroutine instructions are in the VM's step relation."
+CLAIMS["C01"]["text"] += " Extension round: also RET and the coroutine instructions (isa_ret_*, isa_yield, isa_scont, isa_ccont, isa_dcont_rcont); no statement of a block and no operand of the listed node types is skipped by the compiler; an instruction that fails has stored nothing."
+CLAIMS["C09"]["text"] += " Extension round: every non-control instruction changes the stack pointer by exactly one push minus its stack operands (vm.Run#step[loop0:isa_stack, isa_pushes_one]); fetch consumes a stack operand and nothing else."
+
 props = [json.loads(l) for l in open("/verif/properties.jsonl")]
 checks = []
 na = []
